@@ -1009,10 +1009,18 @@ func (fr *Frame) unop(st *State, x *ssa.UnOp) {
 		v := fr.tv(st, x.X)
 		_, signed, _ := intWidth(x.Type())
 		if signed {
-			fr.bind(st, x, TV{app("-", app("-", v.S), "1"), SInt, x.Type()})
+			if c, ok := numeral(v.S); ok { // complement of a literal (e.g. a constant argument of an inlined call) stays a literal
+				fr.bind(st, x, TV{bigNum(new(big.Int).Sub(new(big.Int).Neg(c), big.NewInt(1))), SInt, x.Type()})
+			} else {
+				fr.bind(st, x, TV{app("-", app("-", v.S), "1"), SInt, x.Type()})
+			}
 		} else {
 			_, hi, _ := intRange(x.Type())
-			fr.bind(st, x, TV{app("-", bigNum(hi), v.S), SInt, x.Type()})
+			if c, ok := numeral(v.S); ok {
+				fr.bind(st, x, TV{bigNum(new(big.Int).Sub(hi, c)), SInt, x.Type()})
+			} else {
+				fr.bind(st, x, TV{app("-", bigNum(hi), v.S), SInt, x.Type()})
+			}
 		}
 	case token.ARROW: // channel receive
 		ct := x.X.Type().Underlying().(*types.Chan)
